@@ -30,7 +30,11 @@ Model of the recursive-descent parser: pkg/syntax/zh/zh_parser.go (token window,
   (`setStmtCurrentLine(memberExpr, tk)`, `tk` = the member-name token; before, the line stayed 0, so an error raised by the statement
   `A之不存在` was reported at line 1) — NOT under the variant, for the reason of (5): it changes the tree that is returned, and
   `LinX` (one relation for every variant) now says "the line of the member-name token" in its clauses `this` and `dot`.  In this
-  line field, too, `Variant.legacy` is the repaired code.
+  line field, too, `Variant.legacy` is the repaired code;
+  (8) `ParseExecBlock`'s "the block ended while still in its 输入 section" error is built with `getInvalidSyntaxPeek` (the token
+  that ended the block: an over-indented or dedented line right after the 输入 line, or the end of the text) instead of
+  `getInvalidSyntaxCurr` (the last token of the 输入 line) — under the variant (`inputStateFix`), like (4): no rendering reaches
+  that place, so the theorems stated for every variant keep holding for every variant.
 -/
 import ZnVerif.Model.LexCore
 import ZnVerif.Model.Ast
@@ -65,10 +69,13 @@ structure Variant where
   /-- fix (4): the error for tokens left over after the top-level block is positioned at the first left-over token
   (legacy: at the last accepted token) -/
   leftoverFix : Bool
+  /-- fix (8): the error for an exec block that ends while still in its 输入 section is positioned at the token that ended
+  the block, or at the end of the text (legacy: at the last accepted token — the last token of the 输入 line) -/
+  inputStateFix : Bool
   deriving Repr, DecidableEq
 
-def Variant.fixed : Variant := ⟨true, true, true, true⟩
-def Variant.legacy : Variant := ⟨false, false, false, false⟩
+def Variant.fixed : Variant := ⟨true, true, true, true, true⟩
+def Variant.legacy : Variant := ⟨false, false, false, false, false⟩
 
 /-- `ParserZH` after its first `next()` (before it `TokenP2` is nil and nothing reads it) -/
 structure PState (σ : Type) where
@@ -820,7 +827,7 @@ def pExecLoop (indent : Nat) (st : ExSt) (inputs : List Ident) (stmts : List Stm
       | none =>
         if v.catchFix then errPeek v 20
         else rec (.execLoop indent .catch_ inputs stmts catches)   -- legacy: nothing consumed, same state
-  else if st = .input then errCurr v
+  else if st = .input then (if v.inputStateFix then errPeek v 20 else errCurr v)
   else pure (.mk inputs (some stmts) catches)
 
 -- ParseVarOneLeadStmt
